@@ -18,12 +18,25 @@ Require Import XV.Str XV.Json XV.JsonProofs XV.TextFormat XV.TextFormatProofs
 Definition otext_xmlb (t : option str) : bool :=
   match t with Some s => forallb xml_charb s | None => true end.
 
+(* a tag or attribute name that the text format can carry: raw_ok as a whole (no comma, quote, line break,
+   surrounding white space), or a Clark name {uri}local whose namespace part is ANY string without a line break
+   (commas and quotes included: DiffParser._split does not split inside the braces, repair a8953ad) and whose
+   local part is printable ASCII without comma and quote *)
+Definition local_charb (c : N) : bool := (33 <=? c)%N && (c <=? 126)%N && negb (c =? 44)%N && negb (c =? 34)%N.
+Definition clark_nameb (s : str) : bool :=
+  match unclark s with
+  | (Some u, l) => forallb (fun c => negb (is_linebreak c)) u && negb (match l with [] => true | _ => false end)
+                   && forallb local_charb l
+  | (None, _) => false
+  end.
+Definition name_okb (s : str) : bool := raw_okb s || clark_nameb s.
+
 (* a label that the text format can carry: the tag (a Clark name "{uri}local" or
-   "local") and the attribute names are raw_ok; values, text and tail are XML
+   "local") and the attribute names are name_okb; values, text and tail are XML
    character strings *)
 Definition lab_fmt_okb (l : label) : bool :=
-  match ltag l with TElem t => raw_okb t | TComment => true end
-  && forallb (fun kv => raw_okb (fst kv) && forallb xml_charb (snd kv)) (lattrs l)
+  match ltag l with TElem t => name_okb t | TComment => true end
+  && forallb (fun kv => name_okb (fst kv) && forallb xml_charb (snd kv)) (lattrs l)
   && otext_xmlb (ltext l) && otext_xmlb (ltail l).
 
 (* every node slot of the forest (all ids < fnext) *)
@@ -53,12 +66,12 @@ Definition pe_raw_ok (pe : penv) : Prop := forall u p, pe u = Some p -> forallb 
    positions) can be written by the text format *)
 Definition lit_okb (a : iact) : bool :=
   match a with
-  | IInsert _ tag _ _ => raw_okb tag
+  | IInsert _ tag _ _ => name_okb tag
   | IInsertComment _ _ txt _ => otext_xmlb txt
-  | IRename _ tag => raw_okb tag
+  | IRename _ tag => name_okb tag
   | IText _ t | ITail _ t => otext_xmlb t
-  | IUpdAttr _ k v | IInsAttr _ k v => raw_okb k && forallb xml_charb v
-  | IRenAttr _ _ k' => raw_okb k'
+  | IUpdAttr _ k v | IInsAttr _ k v => name_okb k && forallb xml_charb v
+  | IRenAttr _ _ k' => name_okb k'
   | IInsNs _ _ | IDelNs _ => ns_act_fmt_okb a
   | IMove _ _ _ | IDelete _ | IDelAttr _ _ => true
   end.
